@@ -4,6 +4,7 @@ import (
 	"crypto/sha256"
 	"encoding/json"
 	"fmt"
+	"math"
 	"strings"
 	"time"
 
@@ -131,13 +132,27 @@ func (sc *SearchCache) generateCacheKey(query string, options SearchOptions) str
 	// the answer and must stay part of the key.
 	normalizedQuery := strings.ToLower(query)
 
-	// Create a deterministic key that includes all relevant options
+	// Create a deterministic key that includes all relevant options. The floating-point
+	// factors go in as their bit patterns: JSON cannot encode NaN or an infinity, and a
+	// request carrying one used to fall back to a key made of query and limit alone, which
+	// requests that differ in any other option then shared.
+	numericOptions := options
+	numericOptions.ContextBoosts = nil
+	numericOptions.PipelineBoost = 0
+	boostBits := make(map[string]uint64, len(options.ContextBoosts))
+	for term, factor := range options.ContextBoosts {
+		boostBits[term] = math.Float64bits(factor)
+	}
 	keyData := struct {
-		Query   string        `json:"query"`
-		Options SearchOptions `json:"options"`
+		Query         string            `json:"query"`
+		Options       SearchOptions     `json:"options"`
+		ContextBoosts map[string]uint64 `json:"context_boost_bits"`
+		PipelineBoost uint64            `json:"pipeline_boost_bits"`
 	}{
-		Query:   normalizedQuery,
-		Options: options,
+		Query:         normalizedQuery,
+		Options:       numericOptions,
+		ContextBoosts: boostBits,
+		PipelineBoost: math.Float64bits(options.PipelineBoost),
 	}
 
 	// Serialize to JSON for consistent key generation
